@@ -713,7 +713,7 @@ impl ParserListener for Screen {
                     }
                 }
             } else {
-                break; // Unprintable character or doesn't advance the cursor.
+                continue; // Unprintable character or doesn't advance the cursor.
             }
 
             // .. note:: We can't use `cursor_forward()`, because that
